@@ -306,6 +306,13 @@ public:
 		return *this;
 	}
 
+	File& operator<<(const Array<String>& x) // the characters of each string, not the String objects
+	{
+		for (int i = 0; i < x.length(); i++)
+			*this << x[i];
+		return *this;
+	}
+
 	File& operator>>(String& x) // do what? read size then data? read until 0?
 	{
 		int n;
